@@ -105,6 +105,11 @@ pub fn gen(idx: u64, rng: &mut Rng, _tier: Tier) -> Scn {
             sender.poll.max_polls = 3500;
         }
     }
+    // set_complete(): nothing can be added any more, the carousel - and the renewal of the FDT - go on as before
+    if !grid && rng.chance(0.3) {
+        let when = if rng.chance(0.5) { When::AtUs(0) } else { When::AfterPkt(rng.range(1, 40)) };
+        sender.ops.push(TimedOp { when, op: Op::SetComplete });
+    }
     Scn {
         sender,
         recv,
